@@ -39,6 +39,9 @@ func LayoutByTag(tag string) LayoutDef {
 	if tag == "LP" {
 		return LP
 	}
+	if tag == "L11" { // steps with prime factors other than 2 and 3
+		return L("L11", "7s:35s,35s:140s")
+	}
 	if tag == "LH" { // an archive of 8000 slots (24 pages)
 		return L("LH", "1s:8000s,400s:16000s")
 	}
